@@ -23,6 +23,7 @@ def run(ctx):
     lib_stats.validators(ctx, P)
     lib_stats.early_exits(ctx, P)
     lib_stats.string_equality(ctx, P)
+    lib_stats.kernel_shapes(ctx, P)
     frozen = json.load(open(lib_module.OPTIONS_TABLE))["methods"]
     stat_funcs = {f for f, es in frozen.items() if any(e.get("flag", "").startswith("TSK_STAT_") for e in es)}
     lib_module.options_plumbing(ctx, P, funcs=stat_funcs)
